@@ -6,6 +6,8 @@ import ProfiVerif.Lemmas.StationMark
 import ProfiVerif.Lemmas.StationVisit
 import ProfiVerif.Lemmas.TimedRing2Step
 import ProfiVerif.Lemmas.TimedRingRot
+import ProfiVerif.Lemmas.TimedRingRotN
+import ProfiVerif.Props.C01
 
 namespace PV.C13
 open PV
@@ -396,5 +398,90 @@ example : RotRun (cfgR.rot 20000) netR evsR :=
 
 /-- The bound for this configuration: 20000 + 2·(5610 + 400 + 100 + 132 + 400 + 100 + 66 + 100) + 66 + 100 µs. -/
 example : cfgR.rot 20000 = 33982 := by decide
+
+/-! ## Ring level, any number of stations -/
+
+/-- The N-station bound in the configuration constants: `TT + N·share`, `share = over + bits 33 + P`. -/
+theorem rotationN_bound_value (cfg : Cfg) (TT N : Nat) :
+    cfg.rotN TT N = TT + N * (((bitsToTime cfg.rate (11 * 255) + cfg.slot + cfg.P) + (cfg.b66 + cfg.slot + cfg.P) +
+      (cfg.ce 2 + cfg.P)) + cfg.b33 + cfg.P) := rfl
+
+/-- **One event of the timed N-station ring with application traffic keeps the timing invariant** `TInvN`
+(stations numbered in ascending address order; the listeners' last token receipts are ordered along the ring,
+none later than the holder's acceptance `acc`; the receipt of the listener `d` passes before the holder is at
+most `TT + d·share` older than `acc`; the holder's deadline bound `Eb` is at most any listener's receipt + `TT`;
+plus the station-local part `TCore` as for two stations), and a station that accepts the token does so at most
+`TT + N·share` after its previous receipt. -/
+theorem n_station_rotation_step (cfg : Cfg) (hok : cfg.Ok) (hP100 : cfg.P ≤ 100000) (M : List Nat) (adr : Nat → Nat)
+    (n : Net) (v : NView) (h : NInv cfg M adr n v) (TT : Nat) (acc Eb : Int) (t : TInvN cfg adr TT n v acc Eb)
+    (i : Nat) (now : Int) (e : EvOkN cfg n v.tl i now) :
+    ∃ n' v' inc c acc' Eb', n.poll i now = (n', inc, some (.ok c)) ∧ NInv cfg M adr n' v' ∧ v'.tl = now ∧
+      TInvN cfg adr TT n' v' acc' Eb' ∧
+      (∀ st, n.stations[i]? = some st → visitTime st.s.st = none → visitTime c.s.st = some now →
+        now ≤ st.s.lastTokenTime + ((cfg.rotN TT n.stations.length : Nat) : Int)) :=
+  rotN_step h hok hP100 t i now e
+
+/-- **Rotation bound of the timed N-station ring with application traffic** (ring-level clause of C13, any
+`N ≥ 2`).  `N` station models on the byte-accurate bus of `Model/Net.lean`, numbered in ascending address order,
+arbitrary application scripts (valid addresses, no FDL status requests; requests are not answered and time
+out), all target rotation times at most `TT` (`bits 33 + P ≤ TT`), the ring invariant `NInv` (C01) and the
+timing invariant `TInvN` initially, any schedule in which every station is polled at least every `P` µs: every
+poll returns regularly, and whenever a station accepts the token the time since its previous token receipt
+(its `last_token_time`) is at most `TT + N·(over + bits 33 + P)` (`rotationN_bound_value`). -/
+theorem n_station_rotation_bound (cfg : Cfg) (hok : cfg.Ok) (hP100 : cfg.P ≤ 100000) (M : List Nat) (adr : Nat → Nat)
+    (TT : Nat) (n : Net) (v : NView) (acc Eb : Int) (h : NInv cfg M adr n v) (t : TInvN cfg adr TT n v acc Eb)
+    (evs : List (Nat × Int)) (hs : SchedN cfg.P n v.tl evs) : RotRun (cfg.rotN TT n.stations.length) n evs :=
+  rotN_run hok hP100 M adr TT evs n v acc Eb h t hs
+
+/-! Non-vacuity for N = 3: the three-station example of C01 with application traffic (`net3a`: stations 3, 5, 7;
+station 5 accepted the token at 70 µs; all previous receipts at 0; TTR = 20 ms). -/
+theorem tinv3a : TInvN PV.C01.cfg2 PV.C01.adr3 20000 PV.C01.net3a PV.C01.view3a 70 20000 := by
+  refine ⟨⟨?_, by decide, by decide, ?_⟩, ?_, ?_, ?_, ?_, ?_⟩
+  · intro j st hj
+    have : j = 0 ∨ j = 1 ∨ j = 2 ∨ 3 ≤ j := by omega
+    rcases this with rfl | rfl | rfl | h3
+    · cases hj; decide
+    · cases hj; decide
+    · cases hj; decide
+    · simp [PV.C01.net3a, h3] at hj
+  · show TPh PV.C01.cfg2 (.hold 70) PV.C01.s3b _ _ 70 20000
+    exact ⟨rfl, rfl, .inr ⟨by decide, by decide⟩⟩
+  · intro i j hij hj
+    have hj' : j < 3 := hj
+    have : (i = 0 ∧ j = 1) ∨ (i = 0 ∧ j = 2) ∨ (i = 1 ∧ j = 2) := by omega
+    rcases this with ⟨rfl, rfl⟩ | ⟨rfl, rfl⟩ | ⟨rfl, rfl⟩ <;> decide
+  · intro j j' hj hj' hjx hjx' _
+    have hj3 : j < 3 := hj
+    have hj3' : j' < 3 := hj'
+    have hx1 : j ≠ 1 := hjx
+    have hx1' : j' ≠ 1 := hjx'
+    have : (j = 0 ∨ j = 2) ∧ (j' = 0 ∨ j' = 2) := by omega
+    rcases this with ⟨rfl | rfl, rfl | rfl⟩ <;> decide
+  · intro j hj hjx
+    have hj3 : j < 3 := hj
+    have hx1 : j ≠ 1 := hjx
+    have : j = 0 ∨ j = 2 := by omega
+    rcases this with rfl | rfl <;> decide
+  · intro j hj hjx
+    have hj3 : j < 3 := hj
+    have hx1 : j ≠ 1 := hjx
+    have : j = 0 ∨ j = 2 := by omega
+    rcases this with rfl | rfl <;> decide
+  · intro j hj hjx
+    have hj3 : j < 3 := hj
+    have hx1 : j ≠ 1 := hjx
+    have : j = 0 ∨ j = 2 := by omega
+    rcases this with rfl | rfl <;> decide
+
+example : RotRun (PV.C01.cfg2.rotN 20000 3) PV.C01.net3a PV.C01.evs3 :=
+  n_station_rotation_bound PV.C01.cfg2 PV.C01.cfg2_ok (by decide) PV.C01.M3 PV.C01.adr3 20000 PV.C01.net3a PV.C01.view3a
+    70 20000 PV.C01.ninv3a tinv3a PV.C01.evs3
+    (schedN_of_times _ _ _ _ (by
+      show SchedNT 100 3 [0, 70, 68] 70 PV.C01.evs3
+      simp [SchedNT, PV.C01.evs3]
+      decide))
+
+/-- The bound for this configuration and three stations: 20000 + 3·(6908 + 66 + 100) µs. -/
+example : PV.C01.cfg2.rotN 20000 3 = 41222 := by decide
 
 end PV.C13
